@@ -202,9 +202,31 @@ def check_fragment(case, rec):
 DTYPES = ["single", "double", "quad", "float32", "float64", "longdouble", "f", "d", "default", None, "f4", "f8"]
 
 
+COMPOSITES = ["%s@hardsphere", "%s@squarewell", "%s+%s", "%s*%s", "%s+%s@hardsphere"]
+COMPOSITE_LEAVES = ["sphere", "cylinder", "ellipsoid", "core_shell_sphere", "fuzzy_sphere", "vesicle"]
+
+
+def _leaves(model):
+    """The elementary kernel models a (possibly composite) model object is built from."""
+    parts = getattr(model, "parts", None)
+    if parts is None and hasattr(model, "P") and hasattr(model, "S"):
+        parts = [model.P, model.S]
+    if not parts:
+        return [model]
+    out = []
+    for part in parts:
+        out.extend(_leaves(part))
+    return out
+
+
 @st.composite
 def build_cases(draw, names):
-    return {"model": draw(st.sampled_from(names)), "dtype": draw(st.sampled_from(DTYPES)),
+    name = draw(st.sampled_from(names))
+    if draw(st.integers(0, 3)) == 0:
+        # a composite model: the request must reach every part
+        form = draw(st.sampled_from(COMPOSITES))
+        name = form % tuple(draw(st.sampled_from(COMPOSITE_LEAVES)) for _ in range(form.count("%s")))
+    return {"model": name, "dtype": draw(st.sampled_from(DTYPES)),
             "bang": draw(st.booleans()),
             # the call itself also crosses the precision boundary: the cutoff is passed by value
             "cutoff": draw(st.sampled_from([0.0, 0.0, 1e-5, 1e-3, 0.01, 0.05])),
@@ -229,8 +251,14 @@ def check_build(case, rec):
     bits = 8 * np.dtype(want).itemsize
     if np.dtype(model.dtype) != np.dtype(want):
         rec.fail("build-dtype:%s" % dt, "%s built as %r" % (req, model.dtype))
-    if ("sas%d_" % bits) not in model.dllpath:
-        rec.fail("library-name:%s" % dt, "%s: library %s lacks the %d-bit tag" % (req, model.dllpath, bits))
+    leaves = _leaves(model)
+    if len(leaves) > 1:
+        rec.cls("composite")
+    for leaf in leaves:
+        if np.dtype(leaf.dtype) != np.dtype(want):
+            rec.fail("build-dtype:%s:part" % dt, "%s: part %s of %s built as %r" % (req, leaf.info.id, name, leaf.dtype))
+        if ("sas%d_" % bits) not in leaf.dllpath:
+            rec.fail("library-name:%s" % dt, "%s: library %s lacks the %d-bit tag" % (req, leaf.dllpath, bits))
     q = np.array([0.005, 0.02, 0.1, 0.3])
     kernel = model.make_kernel([q])
     pars, cutoff = {}, case.get("cutoff", 0.0)
